@@ -191,3 +191,29 @@ M("M_C08_g", ["C08"], "cotengra/scoring.py",
   "        ensure_basic_quantities_are_computed(trial)\n        tree = trial[\"tree\"]\n        return math.log2(tree.combo_cost(factor=self.factor, combine=max))",
   "        tree = trial[\"tree\"]\n        return math.log2(tree.combo_cost(factor=self.factor, combine=max))",
   "revert of the limit-objective fix", ["tests/test_optimizers.py"])
+
+# ------------------------------- C13 --------------------------------------
+M("M_C13_a", ["C13"], "cotengra/interface.py",
+  "    key = (inputs, output, tuple(size_dict.items()), optimize, kwargs)\n",
+  "    key = (inputs, frozenset(output), tuple(size_dict.items()), optimize, kwargs)\n",
+  "cache key ignores the ORDER of the output indices", ["tests/test_interface.py"])
+M("M_C13_b", ["C13"], "cotengra/interface.py",
+  "    kwargs = frozenset(kwargs.items())\n    key = (",
+  "    kwargs = frozenset(k for k, v in kwargs.items() if v)\n    key = (",
+  "harmless for the property: only implementation='cotengra'/'autoray' share an expression, both compute the right value", ["tests/test_interface.py"], harmless=True)
+M("M_C13_c", ["C13"], "cotengra/interface.py",
+  "    key = (inputs, output, tuple(size_dict.items()), optimize, kwargs)\n",
+  "    key = (inputs, output, tuple(size_dict), optimize, kwargs)\n",
+  "cache key ignores the sizes", ["tests/test_interface.py"])
+M("M_C13_d", ["C13"], "cotengra/interface.py",
+  "        if isinstance(optimize, list):\n            h = _HASH_OPTIMIZE_PREPARERS[cls] = tuple",
+  "        if isinstance(optimize, list):\n            h = _HASH_OPTIMIZE_PREPARERS[cls] = len",
+  "explicit list paths keyed by their length only", ["tests/test_interface.py"])
+M("M_C13_e", ["C13"], "cotengra/interface.py",
+  "    # raise ``TypeError`` now if any part is unhashable\n    hash(key)\n    return key",
+  "    # raise ``TypeError`` now if any part is unhashable\n    return (hash(key), len(inputs))",
+  "revert of the key-on-the-contraction fix (hash collisions)", ["tests/test_interface.py"])
+M("M_C13_f", ["C13"], "cotengra/interface.py",
+  "        except TypeError:\n            # some part of the contraction specification is unhashable\n            key = None",
+  "        except ZeroDivisionError:\n            key = None",
+  "revert of the unhashable-key fallback", ["tests/test_interface.py"])
